@@ -271,7 +271,7 @@ package router
 //@   callsite Exchange?: [C10:that-upstream-that-query] arg0 == upstream && arg1 == ctx && sameSlice(arg2, gw, 0, len(gw))
 
 //@ func (r *router) handleReq(ctx context.Context, q *dnsmsg.Question, rc *RequestContext)
-//@   props C03 C10 C12 C01
+//@   props C03 C10 C12 C01 C19
 //@   requires r != nil && q != nil && rc != nil && r.cache != nil && r.cache.logger != nil && (r.cache.memory == nil || memOK(r.cache.memory)) && forall(k, 0, len(r.rules), r.rules[k] != nil)
 //@   requires r.queryCacheHitTotal != nil && r.prefetch != nil && r.prefetch.queue != nil && r.logger != nil && r.prefetchTotal != nil && r.ctx != nil
 //@   modifies rc.Response.Msg, rc.Response.RuleIdx, rc.Response.Cached, rc.Response.IpMark, obj(r.prefetch.queue)
@@ -286,6 +286,21 @@ package router
 //@             rc.Response.Msg.RCode == dnsmsg.RCode(r.rules[rc.Response.RuleIdx].reject) && emptyResp(rc.Response.Msg)
 //@   ensures [C10:no-action-refused] !noRuleApplies(r, q.Name) && r.rules[rc.Response.RuleIdx].reject == 0 && r.rules[rc.Response.RuleIdx].upstream == nil ==>
 //@             rc.Response.Msg.RCode == dnsmsg.RCodeRefused && emptyResp(rc.Response.Msg)
+//@   ghost gHit *dnsmsg.Msg = nil
+//@   ghost gNeed bool = false
+//@   ghost gDone bool = false
+//@   ghost nFwd int = 0
+//@   ghost gStored time.Time = nil
+//@   ghost gExp time.Time = nil
+//@   aftercall Get: gHit = ret0
+//@   aftercall Get: gStored = ret1
+//@   aftercall Get: gExp = ret2
+//@   aftercall needPrefetch: gNeed = ret0
+//@   aftercall ctxDone: gDone = ret0
+//@   oncall forward: nFwd = nFwd + 1
+//@   ensures [C19:hit-answered-from-cache] gHit != nil && !gDone ==> rc.Response.Msg == gHit && rc.Response.Cached && nFwd == 0
+//@   callsite asyncSingleFlightPrefetch: [C19:refresh-only-inside-the-window] gHit != nil && gNeed && arg1 == q
+//@   callsite needPrefetch: [C19:window-of-the-entry-hit] gHit != nil && arg0 == gStored && arg1 == gExp
 //@   callsite forward: [C10:selected-upstream] firstApplies(r, q.Name, rc.Response.RuleIdx) && r.rules[rc.Response.RuleIdx].reject == 0 && arg2 == r.rules[rc.Response.RuleIdx].upstream && arg3 == q
 //@   callsite asyncSingleFlightPrefetch: [C10:selected-upstream-prefetch] firstApplies(r, q.Name, rc.Response.RuleIdx) && r.rules[rc.Response.RuleIdx].reject == 0 && arg3 == r.rules[rc.Response.RuleIdx].upstream
 //@   callsite makeEmptyResp: [C03:rcode-table] arg2 == (matchedRule == nil ? 5 : (matchedRule.reject > 0 ? matchedRule.reject : (matchedRule.upstream == nil ? 5 : 2)))
